@@ -9,7 +9,10 @@ ROUND2 = os.environ.get('ROUND2', '0') == '1'
 ROUND3 = os.environ.get('ROUND3', '0') == '1'
 ROUND4 = os.environ.get('ROUND4', '0') == '1'
 ROUND5 = os.environ.get('ROUND5', '0') == '1'
-if ROUND5:     # fifth, cross-property round M21..M23: ids as given (Cxx-j, Cxx-k, ...)
+ROUND6 = os.environ.get('ROUND6', '0') == '1'
+if ROUND6:     # sixth round M24..M26 (cross-property, convenience APIs): M24 keeps p/q, M25 -> r/s, M26 -> t/u
+    cands = sorted(glob.glob('/tmp/M2[4-6]_out/C??-?'))
+elif ROUND5:     # fifth, cross-property round M21..M23: ids as given (Cxx-j, Cxx-k, ...)
     cands = sorted(glob.glob('/tmp/M2[1-3]_out/C??-?'))
 elif ROUND4:     # fourth round M16..M20: suffixes h, i
     cands = sorted(glob.glob('/tmp/M1[6-9]_out/C??-?') + glob.glob('/tmp/M20_out/C??-?'))
@@ -23,6 +26,9 @@ else:
 
 def sid_of(c):
     b = os.path.basename(c)
+    if ROUND6:
+        shift = {'M24': 0, 'M25': 2, 'M26': 4}[c.split('/')[2].split('_')[0]]
+        return b[:-1] + chr(ord(b[-1]) + shift)
     if ROUND5:   # three agents used the same suffixes: M21 keeps j/k, M22 -> l/m, M23 -> n/o
         shift = {'M21': 0, 'M22': 2, 'M23': 4}[c.split('/')[2].split('_')[0]]
         return b[:-1] + chr(ord(b[-1]) + shift)
